@@ -318,6 +318,10 @@ func (m *Machine) settle(what string) *Snap {
 	s, err := m.w.Settle()
 	m.snap = s
 	if err != nil {
+		if se, ok := err.(*StuckError); ok && se.Starved {
+			m.w.Stats.hit("inconclusive:process-starved")
+			m.t.Skip("the process was starved: no verdict for this case")
+		}
 		m.detail = err.Error()
 		m.fail("*", "after %s: not quiescent, something that must happen did not happen: %s", what, m.stuckSummary(err))
 	}
